@@ -117,6 +117,8 @@ func verifC42Exec(op string) string {
 	switch f[0] {
 	case "reset":
 		return "ok"
+	case "dh": // the destination a real forward.DestHandler announces for its first run
+		return verifutil.HexS(forward.VerifC42DestHandlerURL(verifutil.UnHexS(f[1]), verifutil.UnHexS(f[2]), verifC42Matches(f[3])))
 	case "hnd":
 		return verifC42Handler(verifutil.UnHexS(f[1]), verifC42Matches(f[2]), f[3])
 	case "src":
@@ -324,6 +326,37 @@ func verifC42GenHandler(r *verifutil.Rand) string {
 	return fmt.Sprintf("hnd %s %s %s", verifutil.HexS(tmpl()), verifC42FmtMatches(matches), strings.Join(ev, "/"))
 }
 
+// a destination for a real DestHandler: fixed closed loopback endpoint, templated path made of characters
+// net/url leaves alone; literals and values are chosen so that inserted values + adjacent text often spell
+// another placeholder (a second substitution pass would change the result)
+func verifC42GenDestHandler(r *verifutil.Rand) string {
+	k := r.Intn(4)
+	val := func() string {
+		return r.Pick("1", "2", "10", "G1", "G2", "PATH", "_PATH", "MTX_PATH", "TX_PATH", "cam", "live", "a-b_c.d", "x", "0")
+	}
+	pathName := r.Pick("cam", "live/s1", "G1", "PATH", "1", "a.b")
+	matches := []string{pathName}
+	for j := 0; j < k; j++ {
+		matches = append(matches, val())
+	}
+	var sb strings.Builder
+	sb.WriteString(r.Pick("rtmp://127.0.0.1:1/app/", "rtmp://127.0.0.1:1/", "rtmps://127.0.0.1:1/live/"))
+	n := 1 + r.Intn(5)
+	for j := 0; j < n; j++ {
+		switch r.Intn(9) {
+		case 0, 1, 2:
+			sb.WriteString(fmt.Sprintf("$G%d", 1+r.Intn(k+1)))
+		case 3, 4:
+			sb.WriteString("$MTX_PATH")
+		case 5:
+			sb.WriteString(r.Pick("$", "$G", "$MTX_", "$MTX", "$M", "$G1", "$$"))
+		default:
+			sb.WriteString(r.Pick("a", "cam", "/", "-", "_", ".", "G", "1", "2", "PATH", "s"))
+		}
+	}
+	return fmt.Sprintf("dh %s %s %s", verifutil.HexS(sb.String()), verifutil.HexS(pathName), verifC42FmtMatches(matches))
+}
+
 func verifC42Gen(r *verifutil.Rand, i int, thorough bool) []string {
 	// round-2 regressions: a second activation with another query; a query that is not in canonical form
 	switch i {
@@ -334,8 +367,17 @@ func verifC42Gen(r *verifutil.Rand, i int, thorough bool) []string {
 		return []string{"hnd " + verifutil.HexS("rtsp://cam/s?$MTX_QUERY") + " " + verifC42FmtMatches([]string{"p"}) +
 			" a." + verifutil.HexS("t=2024-02-29T12:00:00Z&b=/x,$G1&a&c=1;d=%zz") + ".0._"}
 	}
+	switch i {
+	case 11: // round-4 regressions: an already resolved destination must not be resolved again
+		return []string{"dh " + verifutil.HexS("rtmp://127.0.0.1:1/app/$G$G2") + " " + verifutil.HexS("cam") + " " + verifC42FmtMatches([]string{"cam", "cam", "1"})}
+	case 12:
+		return []string{"dh " + verifutil.HexS("rtmp://127.0.0.1:1/app/$MTX_$G1") + " " + verifutil.HexS("cam") + " " + verifC42FmtMatches([]string{"cam", "PATH"})}
+	}
 	if i%8 == 3 {
 		return []string{verifC42GenHandler(r)}
+	}
+	if i%16 == 5 {
+		return []string{verifC42GenDestHandler(r)}
 	}
 	return []string{verifC42Gen1(r, i, thorough)} // props/C42.json says "stateless"
 }
